@@ -260,10 +260,24 @@ def rule_lists(ctx, rep):
             ent = f.blocks[pat.scc_entries(f, comp)[0]].insts[0]
             if all(f.dominates(f.blocks[pat.scc_entries(f, c2)[0]].insts[0], ent) for c2 in scans):
                 last = comp
-        sp = [i for i in f.all_insts() if pat.from_fn(i, "cds_list_splice")]
+        # the put-back, by what it does: stores that rewire the registry head after the scans (whatever helper performs them)
+        after = set(f.reachable_set(pat.scc_exit_targets(f, last))) | set(x.id for x in pat.scc_exit_targets(f, last))
+        sp = [i for i in f.all_insts() if i.op == "store" and i.id in after and i.d["ap"] and "@registry" in ir.ap_str(f, i.d["ap"], 3) and not pat.from_fn_opt(i, "cds_list_move")
+              and not pat.from_fn_opt(i, "cds_list_del") and not pat.from_fn_opt(i, "cds_list_add")]
+        sp += [i for i in f.all_insts() if i.op == "store" and i.id in after and ir.expr(f, i.args[0], 2) == ("addr", "@registry")]
+        # the put-back may be skipped when there is nothing to put back: the emptiness test of the local list belongs to it
+        sp += [i for i in f.all_insts() if i.id in after and i.op == "load" and i.d["ap"] and ir.ap_str(f, i.d["ap"], 3).startswith("local:") and pat.last_field(i.d["ap"]) == "cds_list_head.next"
+               and any(x.op == "store" and x.blk.id != i.blk.id and x in sp and f.reach([i], [x])[0] is not None for x in list(sp))]
         if not sp:
             rep.bad("C15.lists", fl + ".splice-back", "quiescent readers are never spliced back into the registry: after one grace period the registry is empty and later ones wait for nobody", [f.name])
             continue
+        # a splice keeps what is already on the registry (threads that registered while the scan had dropped the lock): the old
+        # first element's prev and the moved list's tail are linked to each other
+        keeps = [i for i in sp if i.op == "store" and ir.ap_str(f, i.d["ap"], 3).startswith("*(@registry.") and pat.last_field(i.d["ap"]).endswith(".prev")]
+        links = [i for i in f.all_insts() if i.op == "store" and i.id in after and (lambda v: v[0] == "load" and v[1].startswith("@registry.") and v[1].endswith(".next"))(ir.expr(f, i.args[0], 2))]
+        rep.check(bool(keeps) and bool(links), "C15.lists", fl + ".splice-keeps-registry", "the put-back links the readers already on the registry behind the returned ones (a splice, not an overwrite)",
+                  "the put-back overwrites the registry head instead of splicing into it: a thread that registered while the scan had released the registry lock is dropped from the registry - "
+                  "later grace periods do not wait for it", [sp[0].where()])
         ul = pat.mutex_calls(f, "pthread_mutex_unlock", "rcu_registry_lock")
         root_ul = [u for u in ul if len(u.scope_chain) <= 2]
         rep.must_pass("C15.lists", fl + ".scan≺splice≺unlock", f, pat.scc_exit_targets(f, last), root_ul, lambda i: i in sp, include_start=True,
